@@ -3,7 +3,7 @@
 # under /verif/seeded/<PID>-<mN>/ (meta with the confirmation), then run the property's quick check against scratch copies
 # (tools/seed_all_scratch.sh with MT=/tmp/mt2) and merge the outcome into the meta files
 pid=$1; shift
-wt=/tmp/wt/${pid}d
+wt=/tmp/wt/${pid}${SUF:-d}
 names=""
 for m in "$@"; do
   src=$wt/seeded_out/$m; dst=/verif/seeded/$pid-$m
